@@ -1304,9 +1304,10 @@ func (c *Context) Reduce(d, x *Decimal) (int, Condition, error) {
 		return 0, res, err
 	}
 	neg := x.Negative
-	_, n := d.Reduce(x)
+	// Round first: rounding can create trailing zeros (9.95 -> 10 at two digits).
+	res := c.round(d, x)
+	_, n := d.Reduce(d)
 	d.Negative = neg
-	res := c.round(d, d)
 	res, err := c.goError(res)
 	return n, res, err
 }
